@@ -241,6 +241,60 @@ pub fn mon_c17(out: &mut Out, l: &str, r: &str) {
     }, &l2);
 }
 
+// ================================================================ C01 (blocking client as issuer)
+
+/// every typed method of the blocking client at its boundary sizes: what reaches the wire must be
+/// the Modbus encoding of exactly the request the method stands for
+pub fn gen_c01_sync(out: &mut Out, rng: &mut Rng, thorough: bool) {
+    for kind in if thorough { vec!["tcp", "rtu"] } else { vec!["tcp"] } {
+        let ops = typed_boundary_ops(rng);
+        for pair in ops.chunks(3) {
+            let unit = rng.u8();
+            let mut line = format!("sync {kind} {}", hex8(unit));
+            for (tid, (op, pdu)) in pair.iter().enumerate() {
+                line.push_str(&format!(" | typed {} r=d{}", op.tok(), hex_raw(&frame(kind, tid as u16, unit, pdu))));
+            }
+            monitor_line(out, &line);
+        }
+    }
+}
+
+pub fn mon_c01_sync(out: &mut Out, l: &str, r: &str) {
+    let Some(rest) = l.strip_prefix("sync ") else { return };
+    let mut parts_l = rest.split(" | ");
+    let head: Vec<&str> = parts_l.next().unwrap_or("").split(' ').collect();
+    let kind = head[0];
+    let mut unit: u8 = match head.get(1).copied() {
+        Some("-") | None => {
+            if kind == "tcp" {
+                255
+            } else {
+                0
+            }
+        }
+        Some(s) => p_u8(s).unwrap_or(0),
+    };
+    let res: Vec<&str> = r.split(" | ").collect();
+    let mut tid: u16 = 0;
+    for (i, op) in parts_l.enumerate() {
+        let f: Vec<&str> = op.split(' ').filter(|s| !s.is_empty()).collect();
+        match f.as_slice() {
+            ["slave", id, ..] => unit = p_u8(id).unwrap_or(unit),
+            ["typed", top, ..] => {
+                let Some(t) = TypedOp::parse(top) else { continue };
+                let Some(reqb) = spec::request_bytes(&t.request()) else { continue };
+                let want = frame(kind, tid, unit, &reqb);
+                let got = res.get(i).copied().unwrap_or("");
+                let w = got.split(" w=").nth(1).and_then(|x| x.split(' ').next()).unwrap_or("");
+                out.check(w == hex(&want), || format!("typed op {i} `{top}` went out as {} instead of {}", super::codec::trunc(w), super::codec::trunc(&hex(&want))), l);
+                tid = tid.wrapping_add(1);
+            }
+            ["call", ..] => tid = tid.wrapping_add(1),
+            _ => {}
+        }
+    }
+}
+
 // ================================================================ C16 (sync timeouts)
 
 pub fn gen_c16_sync(out: &mut Out, rng: &mut Rng, thorough: bool) {
